@@ -11,7 +11,7 @@ EXPLANATION = (
     "merged line on every path, and lines.extend(wrapped) runs in every iteration. Hence lines before lines[-1] at the moment "
     "sentence k is processed are never touched again and depend only on sentences < k and the indents. Also decided: the "
     "formatter wires `semantic` to this wrapper with the no-minimum splitter and the default minimum line length, the "
-    "sentence-end pattern is end-anchored and applied per word, sentences are words joined by one space, both factories use "
+    "sentence-end pattern is end-anchored, accepts the documented sentence ends (constant samples incl. closing quotes / parenthesis before or after the punctuation) and is applied per word, sentences are words joined by one space, both factories use "
     "the same Markdown decorator stack. Not decided: suffix stability and break placement as arithmetic on lengths."
 )
 
